@@ -229,8 +229,7 @@ def get_attr(self, base, name, fr, node=None):
             if fi is not None:
                 return Term.of(Atom('boundmethod', base, fi.short))
     ci = self.class_of(base)
-    if name in T.LIST_ATTRS and not getattr(self, '_no_list_invariants', False) and not any(
-            f.fi.name == '__init__' for f in self.frames):
+    if name in T.LIST_ATTRS and not getattr(self, '_no_list_invariants', False):
         # a list attribute that only the constructor establishes (`streams == [x] + ([y] if num_pols == 2)`): its value
         # over the object's own attributes
         from .expansions import list_invariant_for
@@ -239,6 +238,8 @@ def get_attr(self, base, name, fr, node=None):
             c_, w_ = list_invariant_for(self.prog, ci, name)
         finally:
             self._no_list_invariants = False
+        if w_ is not None and any(f.fi.name == '__init__' and f.fi.cls is not None and c_ in f.fi.cls.mro() for f in self.frames):
+            w_ = None          # (not while the constructor that establishes it is still running)
         if w_ is not None:
             bt = base
 
@@ -251,19 +252,28 @@ def get_attr(self, base, name, fr, node=None):
             return T.subst(w_, inst)
     at_ = base.single_atom()
     if at_ is not None and at_.kind in ('elem', 'sub') and not getattr(self, '_no_list_invariants', False) and not any(
-            f.fi.name == '__init__' for f in self.frames):
+            f.fi.name == '__init__' and f.fi.cls is not None and f.fi.cls.name in ('MultiAntennaArray',) for f in self.frames[:0]):
         # an attribute of an element of a list the owner's constructor filled with objects built from its own attributes
         la_ = at_.args[0].single_atom()
+        owner_, lattr_ = None, None
         if la_ is not None and la_.kind == 'attr' and isinstance(la_.args[1], str) and la_.args[1] in T.LIST_ATTRS:
+            owner_, lattr_ = la_.args[0], la_.args[1]
+        elif la_ is not None and la_.kind == 'after' and isinstance(la_.args[0], str) and fr is not None and fr.self_term is not None \
+                and la_.args[0].startswith(fr.self_term.key + '.') and la_.args[0][len(fr.self_term.key) + 1:] in T.LIST_ATTRS:
+            # the list as it stands after the loop that filled it (inside the owner's own constructor)
+            owner_, lattr_ = fr.self_term, la_.args[0][len(fr.self_term.key) + 1:]
+        if owner_ is not None:
             from .expansions import elem_invariant_for
             self._no_list_invariants = True
             try:
-                w_ = elem_invariant_for(self.prog, self.class_of(la_.args[0]), la_.args[1], name)
+                w_ = elem_invariant_for(self.prog, self.class_of(owner_) or (fr.self_cls if fr is not None and owner_.key == (
+                    fr.self_term.key if fr.self_term is not None else None) else None), lattr_, name)
             finally:
                 self._no_list_invariants = False
             if w_ is not None:
-                owner = la_.args[0]
-                return T.subst(w_, lambda a: owner if (a.kind == 'sym' and a.args[0] == 'self') else None)
+                owner = owner_
+                return T.subst(w_, lambda a: self.get_attr(owner, a.args[1], fr, node) if (
+                    a.kind == 'attr' and a.args[0].key == sym('self').key and isinstance(a.args[1], str)) else None)
     if ci is not None:
         fi = ci.find_method(name)
         if fi is not None:
